@@ -2635,6 +2635,16 @@ namespace bloch::compiler {
             node.collection->accept(*this);
         if (node.index)
             node.index->accept(*this);
+        // "index must be numeric": what the evaluator can use as a position
+        TypeInfo indexType = inferTypeInfo(node.index.get());
+        bool known = indexType.value != ValueType::Unknown || !indexType.className.empty();
+        bool numeric = indexType.className.empty() &&
+                       (indexType.value == ValueType::Int || indexType.value == ValueType::Long ||
+                        indexType.value == ValueType::Float || indexType.value == ValueType::Bit);
+        if (node.index && known && !numeric && !indexType.isTypeParam) {
+            throw BlochError(ErrorCategory::Semantic, node.line, node.column,
+                             "array index must be numeric");
+        }
     }
 
     void SemanticAnalyser::visit(ArrayLiteralExpression& node) {
